@@ -75,7 +75,22 @@ def byline(idx, rep, rid_sched, rid_yield, tier, scenarios=("plain", "plain2", "
         rep.stats["table_rows"] = rep.stats.get("table_rows", 0) + len(rows)
 
 
+def byline_collect(idx, rep, rid):
+    """per-member collection in a breadth-first run: with collect each member's result gets exactly the lines that member matched; without
+    (next_by_line / fast_forward_by_line) no result gets any line"""
+    for collect in (True, False):
+        fi, rows = RM.byline_rows(idx, 2, "plain", collect=collect)
+        bad = None
+        for agree, p in rows:
+            for aspect, ok, detail in RJ.byline_judge("plain", agree, p, 2):
+                if aspect == "collected" and not ok:
+                    bad = bad or detail
+        rep.check(bad is None, rid, f"{fi.file}::CsvPaths.next_by_line table collected (collect={collect})", bad or f"{len(rows)} paths", K.where(fi, fi.node))
+        rep.stats["table_rows"] = rep.stats.get("table_rows", 0) + len(rows)
+
+
 def r1(idx, rep):
+    byline_collect(idx, rep, "R1")
     # the by-line member step: track_line → _consider_line → (on match and collect) limit_collection, judged by R6;
     # here: the standalone driver has the same step (C01.R4/C03.R6 tables) and by-line appends the limited line
     fi = idx.method("CsvPaths", "next_by_line")
